@@ -116,7 +116,7 @@ def _elem_type(draw, o, defs, names, depth, for_null=False):
     if o["enums"]:
         choices += ["enum"]
     if o["nested"] and depth > 0:
-        choices += ["struct", "struct"]
+        choices += ["struct", "struct"] * o.get("struct_weight", 1)
         if o["unions"] and not for_null:
             choices.append("union")
     if o["pointers"] and not for_null:
